@@ -16,8 +16,14 @@ Sub-checks
            machines predict which dataset / weights / projection are in effect; compared numerically (c13.loss_value,
            c13.invw; relative entropy: harness-side formula) and against fresh objects (history independence)
   witness  the witnesses of the ..._refuted theorems (code before the fixes) replayed: they must NOT reproduce
-  history  random interleavings over a shared pool of objects of all types; every result is compared with the same
-           call on fresh deep copies in a fresh world, byte snapshots of every pool object before/after
+  factory  every func_calc_* function factory of pool objects of all four classes (default and non-default configuration), with
+           EVERY combination of its arguments: the object is unchanged (all public attributes + arrays), the function equals the
+           one built from a fresh copy, keeps its outputs on probe vectors when the object is re-configured / zeroed afterwards,
+           and a copy of the object made before stays compatible with it (+ / -)
+  history  random interleavings over a shared pool of objects of all types (incl. the factories, configuration setters, arithmetic
+           with a copy made earlier); every result is compared with the same call on fresh deep copies in a fresh world, byte
+           snapshots (arrays AND every public property) of every pool object before/after, results and functions returned
+           earlier are re-observed after every later operation
 """
 import copy, hashlib, random, warnings, itertools
 from fractions import Fraction
@@ -818,7 +824,11 @@ def perform(world, desc, operands):
     if t == "unary":
         f = getattr(operands[0], desc["m"])
         if desc["m"] == "calc_proj_physical":
-            return f(max_iteration=200)
+            return f(max_iteration=desc.get("maxit", 200))
+        if desc["m"] == "is_physical" and "atols" in desc:
+            return f(atol_eq_const=desc["atols"][0], atol_ineq_const=desc["atols"][1])
+        if desc["m"] in ("is_eq_constraint_satisfied", "is_ineq_constraint_satisfied") and "atols" in desc:
+            return f(atol=desc["atols"][0])
         return f() if callable(f) else f                       # read-only properties of distributions / ensembles
     if t == "indexed":
         return getattr(operands[0], desc["m"])(desc["i"])
@@ -876,7 +886,7 @@ def perform(world, desc, operands):
         if m.startswith("func_"):
             return getattr(obj, m)(on_para_eq_constraint=desc["on_para"])(var)
         if m == "generate_from_var":
-            return obj.generate_from_var(var, on_para_eq_constraint=desc["on_para"], is_physicality_required=False)
+            return obj.generate_from_var(var, on_para_eq_constraint=desc["on_para"], is_physicality_required=False, **desc.get("kw", {}))
         return getattr(type(obj), m)(obj.composite_system, var, on_para_eq_constraint=desc["on_para"])
     if t == "cache":
         c = operands[0]
@@ -939,7 +949,12 @@ def choose_op(rng, pool, hist_world):
                 o = pool[k]["obj"]
                 n = len(o.hss) if kind == "MProcess" else len(o.vecs)
                 return {"t": "indexed", "m": rng.choice(INDEXED[kind]), "i": rng.randrange(n), "a": [k]}
-            return {"t": "unary", "m": rng.choice(UNARY[kind]), "a": [k]}
+            d_ = {"t": "unary", "m": rng.choice(UNARY[kind]), "a": [k]}
+            if d_["m"] == "calc_proj_physical" and rng.random() < 0.5:
+                d_["maxit"] = rng.choice([1, 5, 60])
+            if d_["m"] in ("is_physical", "is_eq_constraint_satisfied", "is_ineq_constraint_satisfied") and rng.random() < 0.5:
+                d_["atols"] = [rng.choice([1e-3, 1e-9]), rng.choice([1e-3, 1e-9])]
+            return d_
         if r < 0.46:
             k = rng.choice(objs); kind = pool[k]["kind"]
             m = rng.choice(["add", "sub", "mul", "rmul", "div"])
@@ -979,7 +994,13 @@ def choose_op(rng, pool, hist_world):
             O = [x for x in by(pool[v]["cls"]) if pool[x]["csid"] == pool[v]["csid"] and x[0] in "SGPM" and len(x) == 3]
             if not O:
                 continue
-            return {"t": "varfn", "m": rng.choice(VARFN), "on_para": pool[v]["on_para"], "a": [rng.choice(O), v]}
+            d_ = {"t": "varfn", "m": rng.choice(VARFN), "on_para": pool[v]["on_para"], "a": [rng.choice(O), v]}
+            if d_["m"] == "generate_from_var" and rng.random() < 0.7:
+                # configuration arguments that differ from the generating object's own configuration
+                opts = {"is_estimation_object": rng.random() < 0.5, "on_algo_eq_constraint": rng.random() < 0.5, "on_algo_ineq_constraint": rng.random() < 0.5,
+                        "mode_proj_order": rng.choice(["eq_ineq", "ineq_eq"]), "eps_proj_physical": rng.choice([1e-4, 1e-7])}
+                d_["kw"] = {k_: opts[k_] for k_ in sorted(opts) if rng.random() < 0.6}
+            return d_
         if r < 0.97:
             cids = sorted(set(pool[k]["csid"] for k in objs))
             cid = rng.choice(cids)
@@ -1062,6 +1083,11 @@ def run_history(ctx, case, report=True):
         else:
             operands = [pool[a]["obj"] for a in desc["a"]]
             frozen = [freeze(pool[a]["obj"], pool[a]["csid"]) for a in desc["a"]]
+        for cid2, c in list(world.cs.items()):
+            if cid2 not in trackers:
+                trackers[cid2] = CacheTracker(ctx, c, "history", "system %s" % (cid2,))
+            else:
+                trackers[cid2].__init__(ctx, c, "history", trackers[cid2].label)     # adopt what the snapshots above may have built
         # ---- the call in the history world
         if "atol" in desc:
             Q["Settings"].set_atol(desc["atol"])
@@ -1069,12 +1095,19 @@ def run_history(ctx, case, report=True):
             with warnings.catch_warnings():
                 warnings.simplefilter("ignore")
                 res = perform(world, desc, operands)
+                rh = canon(res)                      # (a returned function is evaluated here, under the same global tolerance as in the fresh world)
         except Exception as e:
             res = e
+            rh = canon(e)
         finally:
             atol_after = Q["Settings"].get_atol()
             Q["Settings"].set_atol(atol0)
-        rh = canon(res)
+        # ---- cache machine alongside: the exact step, compared IMMEDIATELY after the call (before the harness itself evaluates
+        #      anything that may build tables); every other operation: resynchronised at the end of the iteration
+        if desc["t"] == "cache":
+            op_cid = (tuple(desc["cs"][0]), desc["cs"][1])
+            for cid2, tr in trackers.items():
+                tr.apply([desc["code"]] if cid2 == op_cid else [], "op %d" % k, dict(case, ops=ops[:k + 1]))
         if atol_after != desc.get("atol", atol0):
             fails.append((site, "mutates-global-settings", k, "op %d (%s) left Settings.atol at %r (was %r)" % (k, site, atol_after, desc.get("atol", atol0))))
         # ---- the same call on fresh deep copies in a fresh world
@@ -1106,6 +1139,14 @@ def run_history(ctx, case, report=True):
             if digest(ent["obj"]) != before[key]:
                 sig = "mutates-argument" if key in desc["a"] else "mutates-derived-object"
                 fails.append((site, sig, k, "op %d (%s) changed the value of pool object %s (%s)" % (k, site, key, "operand" if key in desc["a"] else "not an operand")))
+        for cid2, c in world.cs.items():
+            if cid2 in bases and digest(c.basis()) != bases[cid2]:
+                fails.append((site, "mutates-basis", k, "op %d (%s) changed the basis of composite system %s" % (k, site, cid2)))
+        for cid2, c in world.cs.items():
+            for i, s in enumerate(SLOTS):
+                o = getattr(c, s)
+                if o is not None and (len(cid2[0]) == 1 or i in (3, 4)) and digest(o) != fresh_table(cid2[0], i):
+                    fails.append(("CompositeSystem." + s, "stale-or-corrupted-table", k, "after op %d (%s) the cached table differs from a fresh system's" % (k, site)))
         # ---- results derived earlier (arrays, lists, closures returned by the func_calc_* factories observed through their outputs
         #      on fixed probe vectors) must keep their value whatever is done later to the objects they were derived from
         for wt in watch:
@@ -1119,26 +1160,6 @@ def run_history(ctx, case, report=True):
             cl = [w_ for w_ in watch if isinstance(w_["obj"], Closure)]
             ot = [w_ for w_ in watch if not isinstance(w_["obj"], Closure)]
             watch[:] = sorted(cl[-4:] + ot[-8:], key=lambda w_: w_["k"])
-        for cid2, c in world.cs.items():
-            if cid2 in bases and digest(c.basis()) != bases[cid2]:
-                fails.append((site, "mutates-basis", k, "op %d (%s) changed the basis of composite system %s" % (k, site, cid2)))
-        # ---- cache machine alongside (direct get/delete: exact step on THAT system, no step on the others;
-        #      everything else: resynchronise, the invariant is checked below)
-        for cid2, c in list(world.cs.items()):
-            if cid2 not in trackers:
-                trackers[cid2] = CacheTracker(ctx, c, "history", "system %s" % (cid2,))
-        if desc["t"] == "cache":
-            op_cid = (tuple(desc["cs"][0]), desc["cs"][1])
-            for cid2, tr in trackers.items():
-                tr.apply([desc["code"]] if cid2 == op_cid else [], "op %d" % k, dict(case, ops=ops[:k + 1]))
-        else:
-            for cid2, tr in trackers.items():
-                tr.__init__(ctx, tr.c, "history", tr.label)       # resynchronise: other operations may fill tables
-        for cid2, c in world.cs.items():
-            for i, s in enumerate(SLOTS):
-                o = getattr(c, s)
-                if o is not None and (len(cid2[0]) == 1 or i in (3, 4)) and digest(o) != fresh_table(cid2[0], i):
-                    fails.append(("CompositeSystem." + s, "stale-or-corrupted-table", k, "after op %d (%s) the cached table differs from a fresh system's" % (k, site)))
         # ---- results join the pool
         labels.append(desc["t"] if not isinstance(res, Exception) else desc["t"] + "!raise")
         if desc["t"] == "setter":
@@ -1654,6 +1675,19 @@ def sub_loss(ctx):
     cases = []
     for _ in range(ctx.n(24, 240)):
         cases.append(gen_loss_case(rng, rng.choice([0, 0, 1, 1, 2, 3]), rng.randint(2, ctx.n(5, 8))))
+    # systematic part: every ordered pair of weighting modes on one object (second configuration on another dataset), and a
+    # setter call between / after them - so that "mode B after mode A" is exercised for ALL A, B on every run
+    base = gen_loss_case(rng, 0, 1)
+    rbase = gen_loss_case(rng, 2, 1)
+    for kind in (0, 1, 2, 3):
+        b = base if kind in (0, 1) else rbase
+        modes = MODES if kind in (0, 1) else ["identity", "custom"]
+        for i, m1 in enumerate(modes):
+            for j, m2 in enumerate(modes):
+                ops = [["cfg", 0, m1, 0], ["cfg", 1, m2, 1]]
+                if (i + j) % 3 == 0:
+                    ops = [ops[0], ["set", (i + j) % 2], ops[1], ["set", -1 if i % 2 else 1]]
+                cases.append(dict(b, kind=kind, ops=ops))
     ctx.sample("loss", cases[0])
     ctx.run_cases("loss", chk_loss, cases)
     ac = []
@@ -1714,7 +1748,9 @@ def run(ctx):
     ctx.rule = ("histories: seeded random interleavings (length 10 quick / 40 thorough) over a pool of ~35 objects of all types on two qubits and a qutrit "
                 "built from small rationals (physical and non-physical, unequal outcome counts, asymmetric); every result compared (1e-10) with the same "
                 "call on fresh deep copies in a fresh world, SHA-1 byte snapshots of every pool object and basis before/after; non-trivial = the call "
-                "returned a value (error branches are compared but counted trivial). cache: get/delete sequences with the Coq machine alongside. "
+                "returned a value (error branches are compared but counted trivial); snapshots cover every public property; functions returned by the "
+                "func_calc_* factories are derived objects observed on fixed probe vectors after every later operation. factory: all 6 factories x all "
+                "argument combinations (3 / 27) on 8 (thorough 15) objects with default and non-default configuration. cache: get/delete sequences with the Coq machine alongside. "
                 "loss/algo: re-configuration sequences over 4 datasets x 5 weighting modes (2 for relative entropy) with setter calls in between; "
                 "every step evaluated on the re-used object, on a fresh object and by the Coq machine of the repaired code + numerical model; "
                 "algo non-trivial = the job needs another projection than the first job, or the object carries a user projection. "
